@@ -120,9 +120,8 @@ fn class_name(c: u64) -> String {
 pub fn run(tier: Tier) -> i32 {
     let run = Run::new("C15", tier);
     let th = tier.thorough();
-    let n: i128 = if th { 10_000_000 } else { 1_000_000 };
-    let small: Vec<i128> = (-n..=n).collect();
-    run.par_for(&small, || {}, |&a, l| { for f in 0..=18u8 { unary_case(a, f, l); } });
+    let n: i128 = if th { 50_000_000 } else { 1_000_000 };
+    run.par_range(-n, n, || {}, |a, l| { for f in 0..=18u8 { unary_case(a, f, l); } });
     run.stage("unary: small scope", json!({"|a|<=": n, "scales": 19}));
     let k = alpha::coeffs(2, 50, if th { Level::Thorough } else { Level::Mid });
     run.par_for(&k, || {}, |&a, l| { if a.abs() > n { for f in 0..=18u8 { unary_case(a, f, l); } } });
